@@ -99,8 +99,8 @@ def impl(case):
     a = case["args"]
     if case["fn"] == "expanding":
         es, ns, shape2d, center, sizes = a
-        e = np.array(es).reshape(shape2d)
-        n = np.array(ns).reshape(shape2d)
+        e = C.mkarr(es, shape2d, case["op"])
+        n = C.mkarr(ns, shape2d, case["op"])
         e.setflags(write=False)
         n.setflags(write=False)
         r = C.call(vd.expanding_window, (e, n, np.zeros_like(e)), center, sizes)
@@ -113,8 +113,8 @@ def impl(case):
             out.append(_flat_indices(idx, shape2d))
         return out
     es, ns, shape2d, size, region, shape, spacing, adjust, extra = a
-    e = np.array(es).reshape(shape2d)
-    n = np.array(ns).reshape(shape2d)
+    e = C.mkarr(es, shape2d, case["op"])
+    n = C.mkarr(ns, shape2d, case["op"])
     e.setflags(write=False)
     n.setflags(write=False)
     coords = (e, n, np.ones_like(e)) if extra else (e, n)
